@@ -43,7 +43,9 @@ def fingerprint(prog):
     for c in prog.circuit:
         out.append((id(c), id(c.op), type(c.op).__name__, tuple(id(p) for p in c.op.p), tuple(str(p) for p in c.op.p),
                     getattr(c.op, "dagger", None), tuple(r.ind for r in c.reg), tuple(id(r) for r in c.reg)))
-    return (tuple(out), tuple(sorted(prog.reg_refs)), tuple(r.active for r in prog.reg_refs.values()), prog.locked if False else None)
+    opts = (repr(sorted(prog.run_options.items())), repr(sorted(prog.backend_options.items())),
+            tuple(sorted((k, repr(getattr(v, "val", None)), repr(getattr(v, "default", None))) for k, v in prog.free_params.items())))
+    return (tuple(out), tuple(sorted(prog.reg_refs)), tuple(r.active for r in prog.reg_refs.values()), opts)
 
 
 SEG = {
@@ -184,10 +186,22 @@ def check_untouched():
                 s2(q)
                 ops.Pgate(0.3).H | q[0]
                 ops.CXgate(0.2) | (q[0], q[1])
+            prog.run_options = {"shots": None}
+            prog.backend_options = dict(kw)
             fp0 = fingerprint(prog)
             r1 = obs(sf.Engine(backend, backend_options=kw).run(prog).state, 2)
             if fingerprint(prog) != fp0:
-                bad(f"{backend} {name}: running the program changed it (circuit / operation objects / parameters / flags)")
+                bad(f"{backend} {name}: running the program changed it (circuit / operation objects / parameters / flags / options)")
+            # run options given to the engine take precedence for that run only and are not written into the program
+            sf.Engine(backend, backend_options=kw).run(prog, modes=[0])
+            if fingerprint(prog) != fp0:
+                bad(f"{backend} {name}: run(prog, modes=[0]) wrote its options into the user's program: {prog.run_options}")
+            # what is done to a compiled / optimised copy does not reach the user's program
+            cp = prog.compile(compiler=backend)
+            cp.run_options["shots"] = 7
+            cp.backend_options["cutoff_dim"] = 3
+            if fingerprint(prog) != fp0:
+                bad(f"{backend} {name}: editing the options of the compiled copy changed the user's program (shared dictionaries)")
             r2 = obs(sf.Engine(backend, backend_options=kw).run(prog).state, 2)
             if not np.allclose(r1, r2, atol=1e-10):
                 bad(f"{backend} {name}: running the same program again on a fresh engine gives a different state")
@@ -322,6 +336,24 @@ def check_measured_functions():
                 continue
             if abs(got - complex(ref(v))) > 1e-9:
                 bad(f"C10: {name} of a measured parameter with outcome {v!r} evaluates to {got}, the function of the outcome is {complex(ref(v))}")
+    # expressions mixing a measured and a FREE parameter, asymmetric in the two: Xgate(q0 - g), Zgate(g cos(q0)) on the gaussian backend
+    for optimize in (False, True):
+        EVAL[0] += 1
+        prog = sf.Program(2)
+        g = prog.params("g")
+        with prog.context as q:
+            ops.MeasureHomodyne(0.0, select=0.7) | q[0]
+            ops.Xgate(q[0].par - g) | q[1]
+            ops.Zgate(g * pf.cos(q[0].par)) | q[1]
+        try:
+            st = sf.Engine("gaussian").run(prog, args={"g": 0.2}, compile_options={"optimize": optimize}).state
+            got = (st.quad_expectation(1, 0)[0], st.quad_expectation(1, np.pi / 2)[0])
+        except Exception as ex:
+            bad(f"C10: Xgate(q0 - g), Zgate(g cos(q0)) with g = 0.2 bound at run time (optimize={optimize}) raised {type(ex).__name__}: {ex}")
+            continue
+        want = (0.7 - 0.2, 0.2 * np.cos(0.7))
+        if not np.allclose(got, want, atol=1e-8):
+            bad(f"C10: Xgate(q0 - g); Zgate(g cos(q0)) with outcome 0.7 and g = 0.2 (optimize={optimize}): (<x>, <p>) of mode 1 = {np.round(got, 4).tolist()}, the substituted circuit gives {np.round(want, 4).tolist()}")
     # feed-forward of a complex (heterodyne) outcome through im / re on the gaussian backend
     for name, build, expect in (("Zgate(1.5*im(q0))", lambda q: ops.Zgate(1.5 * pf.im(q[0].par)) | q[1], (0.0, 1.5 * 0.4)),
                                 ("Xgate(2*re(q0))", lambda q: ops.Xgate(2 * pf.re(q[0].par)) | q[1], (2 * 0.3, 0.0))):
